@@ -56,6 +56,8 @@ func positionContext(l *Input, line, col int) (context string) {
 		c := l.Peek(0)
 		if c == 0 && l.Err() != nil || c == '\n' || c == '\r' {
 			break
+		} else if c == 0xE2 && l.Peek(1) == 0x80 && (l.Peek(2) == 0xA8 || l.Peek(2) == 0xA9) {
+			break // \u2028 and \u2029 are counted as newlines by Position
 		}
 		l.Move(1)
 	}
